@@ -27,6 +27,9 @@ type DAction struct {
 	Marker bool   `json:"mk,omitempty"`
 	TS     uint32 `json:"ts,omitempty"`
 	N      int    `json:"n,omitempty"`
+	Pad    int    `json:"pad,omitempty"` // write / burst: RTP padding octets appended to every packet
+	// join: packets written (to Media/Format) between the reader's DESCRIBE and its SETUP
+	Between int `json:"between,omitempty"`
 }
 
 // DeliveryCase is one C01 case.
@@ -203,6 +206,7 @@ func runDelivery(c DeliveryCase) (*dStats, error) {
 	}
 	ptOf := func(mi, fi int) uint8 { return desc.Medias[mi].Formats[fi].PayloadType() }
 	writeErrs := 0
+	pad := 0 // padding octets of the packets written by the current write / burst action
 	doWrite := func(mi, fi, size int, marker bool, ts uint32) {
 		k := key(mi, fi)
 		idx := len(written[k])
@@ -213,6 +217,12 @@ func runDelivery(c DeliveryCase) (*dStats, error) {
 		}
 		pkt := &rtp.Packet{Header: rtp.Header{Version: 2, PayloadType: p.pt, SequenceNumber: p.seq, Timestamp: p.ts, Marker: p.marker, SSRC: 0x01020304},
 			Payload: append([]byte(nil), p.payload...)}
+		if pad > 0 {
+			// RTP padding (RFC 3550 5.1): the last octet counts the padding, itself included; the payload is what precedes it
+			pkt.Header.Padding = true
+			pkt.Header.PaddingSize = byte(pad)
+			pkt.PaddingSize = byte(pad)
+		}
 		if err := writeTo(mi, pkt); err != nil {
 			if strings.Contains(err.Error(), "queue is full") {
 				writeErrs++
@@ -248,6 +258,7 @@ func runDelivery(c DeliveryCase) (*dStats, error) {
 		}
 		return n
 	}
+	var betweenDescribeAndSetup func()
 	join := func(r *dReader) error {
 		proto := gortsplib.ProtocolTCP
 		if r.proto == "udp" {
@@ -294,6 +305,11 @@ func runDelivery(c DeliveryCase) (*dStats, error) {
 		if err != nil {
 			cl.Close()
 			return fmt.Errorf("reader DESCRIBE: %v", err)
+		}
+		if betweenDescribeAndSetup != nil {
+			// the stream goes on while this reader is between its DESCRIBE and its SETUP (what the description said about the
+			// stream's state - an SRTP roll-over counter, say - may be out of date by the time of the SETUP)
+			betweenDescribeAndSetup()
 		}
 		var medias []*description.Media
 		for mi, m := range sd.Medias {
@@ -427,13 +443,17 @@ func runDelivery(c DeliveryCase) (*dStats, error) {
 		switch a.Kind {
 		case "write":
 			if a.Media < len(c.Formats) && a.Format < c.Formats[a.Media] {
+				pad = a.Pad
 				doWrite(a.Media, a.Format, a.Size, a.Marker, a.TS)
+				pad = 0
 			}
 		case "burst":
 			if a.Media < len(c.Formats) && a.Format < c.Formats[a.Media] {
+				pad = a.Pad
 				for i := 0; i < a.N; i++ {
 					doWrite(a.Media, a.Format, a.Size, i == a.N-1, a.TS+uint32(i))
 				}
+				pad = 0
 			}
 		case "join":
 			r := readers[a.Reader%len(readers)]
@@ -447,7 +467,20 @@ func runDelivery(c DeliveryCase) (*dStats, error) {
 					// reader can never synchronise (a limit of the key exchange, not of the library): let them arrive first
 					quiesce()
 				}
-				if err := join(r); err != nil {
+				betweenDescribeAndSetup = nil
+				if a.Between > 0 && a.Media < len(c.Formats) && a.Format < c.Formats[a.Media] {
+					betweenDescribeAndSetup = func() {
+						for i := 0; i < a.Between; i++ {
+							doWrite(a.Media, a.Format, a.Size, false, a.TS+uint32(i))
+						}
+						if c.Direction == "record" {
+							quiesce() // (they have to be at the server before the SETUP, see above)
+						}
+					}
+				}
+				err := join(r)
+				betweenDescribeAndSetup = nil
+				if err != nil {
 					// a reader that cannot join is outside this property (C01 judges delivery to readers
 					// whose PLAY completed); it is counted, not judged
 					_ = ai
